@@ -334,3 +334,15 @@ package ipfscluster
 //@ lemma xor_injective: forall a int, b int, k int :: a != b ==> (a ^ k) != (b ^ k)
 //@   property C10
 //@   opts bv
+
+// ---- C18: lock ownership (sequential obligations: a guarded field is only touched with its lock held) ----
+//@ guards Cluster.alertsMux: alerts
+
+// "reading alerts while alerts arrive ... never produces a data race, a panic ... or a torn result"
+//@ func (c *Cluster) Alerts
+//@   property C18
+//@   opts own safety lockhavoc
+//@   requires c != nil
+//@   loop 1 (range c.alerts)
+//@     invariant total == len(alerts) && len(alerts) >= len(c.alerts)
+//@   modifies nothing
